@@ -34,6 +34,7 @@ type Script struct {
 	Name    string `json:"name"`
 	Version string `json:"version"`
 	Valid   bool   `json:"valid"`
+	Interp  bool   `json:"interp"` // the #! line names a private interpreter of the sandbox instead of /bin/sh
 }
 
 type File struct {
@@ -84,6 +85,8 @@ type FileObs struct {
 	Cid  int    `json:"cid"`
 	Exec bool   `json:"exec"`
 	Gox  bool   `json:"gox"`
+	// Interp: the #! line names a private interpreter of the sandbox
+	Interp bool `json:"interp"`
 }
 
 type PluginObs struct {
@@ -120,11 +123,20 @@ func metadataJSON(name, version, description string, contracts, caps []string) s
 func shq(s string) string { return "'" + strings.ReplaceAll(s, "'", `'\''`) + "'" }
 
 // content of a regular file; every file carries its content id
+// interpDir holds the private interpreters of the sequence being run (one per script that wants
+// one: <interpDir>/<cid>, a link to /bin/sh created when the script is written). One sequence at a
+// time per process.
+var interpDir string
+
 func content(cid int, s *Script) string {
 	if s == nil {
 		return fmt.Sprintf("data cid=%d\n", cid) // no shebang: cannot be executed
 	}
-	head := fmt.Sprintf("#!/bin/sh\n# cid=%d\n", cid)
+	interp := "/bin/sh"
+	if s.Interp {
+		interp = filepath.Join(interpDir, strconv.Itoa(cid))
+	}
+	head := fmt.Sprintf("#!%s\n# cid=%d\n", interp, cid)
 	good := metadataJSON(s.Name, s.Version, "d", []string{"1.0"}, []string{"SIGNATURE_GENERATOR.RAW"})
 	if s.Valid {
 		return head + "printf '%s\\n' " + shq(good) + "\n"
@@ -159,6 +171,14 @@ func mode(cid int, exe, gox bool) os.FileMode {
 }
 
 func writeFile(path string, cid int, exe, gox bool, s *Script) error {
+	if s != nil && s.Interp {
+		if err := os.MkdirAll(interpDir, 0o755); err != nil {
+			return err
+		}
+		if err := os.Symlink("/bin/sh", filepath.Join(interpDir, strconv.Itoa(cid))); err != nil && !errors.Is(err, os.ErrExist) {
+			return err
+		}
+	}
 	if err := os.WriteFile(path, []byte(content(cid, s)), 0o600); err != nil {
 		return err
 	}
@@ -269,6 +289,15 @@ func materialise(base, root string, op Op) (string, error) {
 
 var cidRe = regexp.MustCompile(`cid=(\d+)`)
 
+// privateInterp: the private interpreter the #! line of a file names ("" if none)
+func privateInterp(b []byte) string {
+	line, _, _ := strings.Cut(string(b), "\n")
+	if p, ok := strings.CutPrefix(line, "#!"); ok && strings.HasPrefix(p, interpDir+string(filepath.Separator)) {
+		return p
+	}
+	return ""
+}
+
 func snapshot(ctx context.Context, m *plugin.CLIManager, root string) ([]PluginObs, []string, error) {
 	out := []PluginObs{}
 	des, err := os.ReadDir(root) // sorted by name
@@ -305,7 +334,8 @@ func snapshot(ctx context.Context, m *plugin.CLIManager, root string) ([]PluginO
 			if mm := cidRe.FindSubmatch(b); mm != nil {
 				cid, _ = strconv.Atoi(string(mm[1]))
 			}
-			po.Files = append(po.Files, FileObs{Name: fe.Name(), Cid: cid, Exec: fi.Mode().Perm()&0o100 != 0, Gox: fi.Mode().Perm()&0o011 != 0})
+			po.Files = append(po.Files, FileObs{Name: fe.Name(), Cid: cid, Exec: fi.Mode().Perm()&0o100 != 0, Gox: fi.Mode().Perm()&0o011 != 0,
+				Interp: privateInterp(b) != ""})
 		}
 		// fetch the plugin by the name of its directory and ask it
 		if p, err := m.Get(ctx, de.Name()); err == nil {
@@ -332,6 +362,7 @@ func runSeq(work string, in Input) (Obs, error) {
 		return obs, err
 	}
 	defer os.RemoveAll(work)
+	interpDir = filepath.Join(work, "interp")
 	root := filepath.Join(work, "root")
 	srcRoot := root // how in-root sources are spelled
 	switch {
@@ -437,6 +468,24 @@ func runSeq(work string, in Input) (Obs, error) {
 					return obs, err
 				}
 			}
+		case "rminterp":
+			// the world: the private interpreters named by the files of <root>/<name> disappear
+			// (the files themselves are not touched)
+			if validPluginName(op.Name) {
+				d := filepath.Join(root, op.Name)
+				fes, _ := os.ReadDir(d)
+				for _, fe := range fes {
+					b, err := os.ReadFile(filepath.Join(d, fe.Name()))
+					if err != nil {
+						continue
+					}
+					if ip := privateInterp(b); ip != "" {
+						if err := os.Remove(ip); err != nil && !errors.Is(err, os.ErrNotExist) {
+							return obs, err
+						}
+					}
+				}
+			}
 		default:
 			return obs, fmt.Errorf("bad op kind %q", op.Kind)
 		}
@@ -504,6 +553,13 @@ func (g *gen) script(name string) *Script {
 // fileEntry: a regular file; an executable one usually also has group/other execute bits,
 // a non-executable one sometimes has ONLY those (0654, 0610, 0601: not executable for the code)
 func (g *gen) fileEntry(name string, exe bool, s *Script) Entry {
+	if s != nil {
+		c := *s
+		if g.chance(0.2) {
+			c.Interp = true // its own private interpreter (present unless the world removes it: rminterp)
+		}
+		s = &c
+	}
 	gox := g.chance(0.12)
 	if exe {
 		gox = g.chance(0.6)
@@ -808,6 +864,8 @@ func (g *gen) sequence() Input {
 			}
 		case g.chance(0.05):
 			in.Ops = append(in.Ops, g.rmexe())
+		case g.chance(0.05):
+			in.Ops = append(in.Ops, Op{Kind: "rminterp", Name: g.pick(pluginNames), Entries: []Entry{}})
 		case g.chance(0.25):
 			in.Ops = append(in.Ops, g.simpleInstall(g.pick(pluginNames), g.version(), g.chance(0.25), g.chance(0.5)))
 		default:
@@ -918,6 +976,22 @@ func (g *gen) regressionShapes() []Input {
 		first.Entries = append(first.Entries, nb)
 		out = append(out, Input{Kind: "seq", Ops: []Op{first, {Kind: "rmexe", Name: "foo", Entries: []Entry{}},
 			g.fromRoot("foo", []Entry{nb}, true, nil, ow, false)}})
+	}
+	// the installed plugin's files are intact but the interpreter its #! line names has disappeared
+	// (removed runtime): it does not answer; without overwrite no version replaces it, with overwrite every one
+	for _, fromDir := range []bool{false, true} {
+		for _, v := range []string{"1.0.0", "2.0.0", "3.0.0"} {
+			for _, ow := range []bool{false, true} {
+				first := g.simpleInstall("foo", "2.0.0", false, fromDir)
+				for i := range first.Entries {
+					if first.Entries[i].Script != nil {
+						first.Entries[i].Script.Interp = true
+					}
+				}
+				out = append(out, Input{Kind: "seq", Ops: []Op{first, {Kind: "rminterp", Name: "foo", Entries: []Entry{}},
+					g.simpleInstall("foo", v, ow, !fromDir), {Kind: "uninstall", Name: "foo", Entries: []Entry{}}}})
+			}
+		}
 	}
 	// "executable" means the owner execute bit: notation-foo with mode 0654 / 0610 / 0601 / 0655
 	for k := 0; k < 4; k++ {
